@@ -161,6 +161,8 @@ class AddStream(HTMLHandlerBase):
         st = models.Stream.get(directory=data['directory'])
         if st:
             models.db.session.delete(st)
+            # the directory is unique: the old row has to go before the new one arrives
+            models.db.session.flush()
         st = models.Stream(**data)
         st.add(commit=True)
         if not is_ajax():
